@@ -574,6 +574,24 @@ def make_run(case_fn, quick, thorough, cfg_fn=None, extra=None, quick_s=150, tho
     return run
 
 
+def c04_run(ctx: Ctx):
+    """NumPy on every case, JAX (incl. models with more than 10 states) on every third"""
+    n = ctx.n(14, 400)
+    for k in range(n):
+        cfg = gen.ModelCfg()
+        backend = "numpy"
+        if k % 3 == 2:
+            backend = "jax"
+            cfg = gen.ModelCfg(max_states=13, min_states=11 if k % 2 == 0 else 1, max_inters=5, depth=1)
+            cfg.expr = gen.ExprCfg(p_floor=0.0, p_mod=0.0, p_ccond=0.0)
+        m = gen.gen_model(ctx.rng, cfg)
+        with common.time_limit(ctx, 120):
+            c04_case(ctx, {"text": m.text(ctx.rng), "backend": backend})
+        if ctx.elapsed() > (1500 if ctx.thorough else 160):
+            ctx.notes.append(f"time budget reached after {k + 1} cases")
+            break
+
+
 def unused_cfg(ctx, k):
     cfg = gen.ModelCfg(p_unused_inter=0.9, max_inters=7, max_params=5, max_states=5)
     cfg.expr = gen.ExprCfg(p_cond=0.05, p_ccond=0.01)
